@@ -8,6 +8,8 @@ prop = sys.argv[1]
 flt = sys.argv[2] if len(sys.argv) > 2 else None
 ms = json.load(open(os.path.join(V, "mutants", prop + ".json")))
 res = []
+evp = os.path.join(V, "evidence", prop + ".json")
+ev_saved = open(evp).read() if os.path.exists(evp) else None
 assert subprocess.run(["git", "-C", "/repo", "status", "--porcelain", "--untracked-files=no"], capture_output=True, text=True).stdout.strip() == "", "/repo not clean"
 for m in ms:
     if flt and flt not in m["name"]:
@@ -32,6 +34,8 @@ for m in ms:
         res.append((m["name"], "ok" if ok else "bad"))
     finally:
         subprocess.run(["git", "-C", "/repo", "checkout", "--", m["file"]])
+if ev_saved is not None:
+    open(evp, "w").write(ev_saved)   # evidence must describe the unchanged tree, not the last mutant
 bad = [r for r in res if r[1] != "ok"]
 print(f"{len(res) - len(bad)}/{len(res)} as expected")
 sys.exit(1 if bad else 0)
